@@ -391,6 +391,19 @@ def gen_proxy(stmts):
                 else:
                     raise Unsupported("is-None test of %s" % a)
                 return t if isinstance(e.ops[0], ast.Is) else "(negb %s)" % t
+            if isinstance(e, ast.Compare) and len(e.ops) == 1 and isinstance(e.ops[0], ast.Lt) \
+                    and is_self_attr(e.left, "trusted_proxy_count") and isinstance(e.comparators[0], ast.Constant) \
+                    and type(e.comparators[0].value) is int:
+                # read after the default may have been assigned: on that path the value is the default
+                k = e.comparators[0].value
+                if consts.setdefault("min", k) != k:
+                    raise Unsupported("two different lower bounds for trusted_proxy_count")
+                cd = env["count_defaulted"]
+                if cd == "false":
+                    return "count_below"
+                if "count" not in consts:
+                    raise Unsupported("trusted_proxy_count compared before its default is known")
+                return simp_if(cd, "true" if consts["count"] < k else "false", "count_below")
             if is_self_attr(e, "trusted_proxy_headers"):
                 if env.get("#hdrs_assigned"):
                     raise Unsupported("trusted_proxy_headers tested after being replaced")
@@ -450,18 +463,20 @@ def gen_proxy(stmts):
 
     env0 = {"count_defaulted": "false", "hdrs_defaulted": "false"}
     refused, env = walk(stmts, env0, atom_of, stmt_of)
-    for k in ("fwd", "count", "hdrs"):
+    for k in ("fwd", "count", "hdrs", "min"):
         if k not in consts:
             raise Unsupported("proxy cross-checks: no %s constant found" % k)
-    args = "(tp_none tpc_none hdrs_nonempty has_unknown has_forwarded has_other : bool)"
+    args = "(tp_none tpc_none count_below hdrs_nonempty has_unknown has_forwarded has_other : bool)"
     return [
-        "(* atoms: trusted_proxy is None; trusted_proxy_count is None; trusted_proxy_headers non-empty;",
+        "(* atoms: trusted_proxy is None; trusted_proxy_count is None; the given count is below proxy_min_count;",
+        "   trusted_proxy_headers non-empty;",
         "   lower-cased headers - KNOWN_PROXY_HEADERS non-empty; the Forwarded name is among them; something else is among them *)",
         "Definition proxy_refused %s : bool :=\n  %s." % (args, refused),
         "Definition proxy_count_defaulted %s : bool :=\n  %s." % (args, env["count_defaulted"]),
         "Definition proxy_headers_defaulted %s : bool :=\n  %s." % (args, env["hdrs_defaulted"]),
         "Definition proxy_forwarded_name : list N := %s.  (* %s *)" % (S(consts["fwd"]), safe(consts["fwd"])),
         "Definition proxy_default_count : N := %d." % consts["count"],
+        "Definition proxy_min_count : Z := %s%%Z." % (("%d" % consts["min"]) if consts["min"] >= 0 else "(%d)" % consts["min"]),
         "Definition proxy_default_headers : list (list N) := %s." % SL(consts["hdrs"]),
     ]
 
@@ -921,7 +936,7 @@ def gen_help():
             "Definition help_opts : list (list N * bool * bool) :=\n  [%s]." % body]
 
 
-PRELUDE = """From Coq Require Import List NArith Bool.
+PRELUDE = """From Coq Require Import List NArith ZArith Bool.
 From WV Require Import Lib.PyBytes.
 Import ListNotations.
 Local Open Scope N_scope.
